@@ -96,7 +96,67 @@ CODE = """
         }
         for i in 0..6 { assert!(rgb[i / 3].0[i % 3] == t.0[s[i] as usize]); }   // no alpha: every component mapped
     }
+
+    #[kani::proof]
+    #[kani::unwind(10)]
+    fn m3_rows_u16x2_to_u8x2_two_image() {
+        // two-image path for 2-component pixels: alpha at EVERY pixel position (even and odd columns) is depth-converted
+        let t = MappingTable::<u8, 256>(kani::any());
+        let s: [u8; 6] = kani::any();
+        let src = [U8x2::new([s[0], s[1]]), U8x2::new([s[2], s[3]]), U8x2::new([s[4], s[5]])];
+        let mut dst = [U8x2::new([7, 7]); 4];
+        {
+            let sv = TypedImageRef::new(3, 1, &src).unwrap();
+            let dv = TypedImage::from_pixels_slice(3, 1, &mut dst).unwrap();
+            t.map_image_typed(sv, dv);
+        }
+        for p in 0..3 {
+            assert!(dst[p].0[0] == t.0[s[2 * p] as usize]);
+            assert!(dst[p].0[1] == s[2 * p + 1]);
+        }
+        assert!(dst[3].0 == [7, 7]);
+    }
+
+    // ---- dynamic entry point: mismatched sizes / component counts are rejected before anything is written ----
+    #[kani::proof]
+    #[kani::unwind(6)]
+    fn m3_map_rejects_mismatch() {
+        let tables = MappingTablesGroup {
+            u8_u8: Box::new(MappingTable([1u8; 256])), u8_u16: Box::new(MappingTable([1u16; 256])),
+            u16_u8: Box::new(MappingTable([1u8; 65536])), u16_u16: Box::new(MappingTable([1u16; 65536])),
+        };
+        let src = crate::images::Image::new(2, 1, PixelType::U8x3);
+        let mut same = crate::images::Image::new(2, 1, PixelType::U8x3);
+        let mut wider = crate::images::Image::new(3, 1, PixelType::U8x3);
+        let mut taller = crate::images::Image::new(2, 2, PixelType::U8x3);
+        let mut other_count = crate::images::Image::new(2, 1, PixelType::U8x4);
+        let mut float = crate::images::Image::new(2, 1, PixelType::F32x3);
+        assert!(PixelComponentMapper::map(&tables, &src, &mut wider) == Err(MappingError::DifferentDimensions));
+        assert!(PixelComponentMapper::map(&tables, &src, &mut taller) == Err(MappingError::DifferentDimensions));
+        assert!(PixelComponentMapper::map(&tables, &src, &mut other_count) == Err(MappingError::UnsupportedCombinationOfImageTypes));
+        assert!(PixelComponentMapper::map(&tables, &src, &mut float) == Err(MappingError::UnsupportedCombinationOfImageTypes));
+        assert!(wider.buffer()[0] == 0 && taller.buffer()[0] == 0 && other_count.buffer()[0] == 0);   // nothing written
+        assert!(PixelComponentMapper::map(&tables, &src, &mut same).is_ok());
+        assert!(same.buffer()[0] == 1 && same.buffer()[5] == 1);                                     // every component looked up
+    }
 """
+
+
+M3B = dict(file="src/color/mappers.rs", name="fv_m3b", code="""
+    // documented sRGB transfer functions (IEC 61966-2-1): the linear segments and their thresholds
+    #[kani::proof]
+    fn m3_srgb_linear_segments() {
+        let x: f32 = kani::any();
+        kani::assume(x >= 0.0 && x <= 1.0);
+        if x < 0.04045 { assert!(srgb_to_linear(x) == x / 12.92); }
+        if x < 0.0031308 { assert!(linear_to_srgb(x) == 12.92 * x); }
+        assert!(srgb_to_linear(0.0) == 0.0 && linear_to_srgb(0.0) == 0.0);
+        // monotone on the linear segments
+        let y: f32 = kani::any();
+        kani::assume(y >= x && y < 0.0031308);
+        assert!(linear_to_srgb(x) <= linear_to_srgb(y) && srgb_to_linear(x) <= srgb_to_linear(y));
+    }
+""")
 
 UNIT = dict(
     id="M3",
@@ -109,7 +169,7 @@ UNIT = dict(
         functions=[dict(file=F, fn="new", within=r"impl<Out, const SIZE: usize> MappingTable<Out, SIZE>"),
                    dict(file=F, fn="map_with_gaps"), dict(file=F, fn="map_with_gaps_inplace"), dict(file=F, fn="map"),
                    dict(file=F, fn="map_inplace"), dict(file=F, fn="map_image_typed"), dict(file=F, fn="map_image_inplace_typed")],
-        modules=[SUPPORT_MODULE, dict(file=F, name="fv_m3", code=CODE, slices=[
+        modules=[SUPPORT_MODULE, M3B, dict(file=F, name="fv_m3", code=CODE, slices=[
             dict(name="fv_slice_table_elem<Out: PixelComponent + Zero + UpperBounded + FromF32 + Into<f32>, const SIZE: usize>",
                  file=F, fn="new", within=r"impl<Out, const SIZE: usize> MappingTable<Out, SIZE>",
                  stmts_from="let input_f32 =", stmts_to="*output =",
@@ -119,9 +179,17 @@ UNIT = dict(
                  stmts_from="let input_f32 =", stmts_to="*output =", params="input: usize", ret="f32", post="input_f32"),
         ])],
         harnesses=[
-            dict(name="m3_elem_value", kind="complete", timeout=900, claim="entry == round(y * max) for every function value y in [0,1] (u8 and u16 tables); y=0 -> 0, y=1 -> max"),
-            dict(name="m3_elem_monotone", kind="complete", timeout=900, claim="y1 <= y2 => entry(y1) <= entry(y2): a monotone transfer function gives a monotone table"),
-            dict(name="m3_elem_argument", kind="complete", timeout=900, claim="argument i/(SIZE-1): 0 at the first entry, 1 at the last, non-decreasing (256 and 65536 entry tables)"),
+            dict(name="m3_elem_value", kind="complete", timeout=900, props=["C16"], claim="entry == round(y * max) for every function value y in [0,1] (u8 and u16 tables); y=0 -> 0, y=1 -> max"),
+            dict(name="m3_elem_monotone", kind="complete", timeout=900, props=["C16"], claim="y1 <= y2 => entry(y1) <= entry(y2): a monotone transfer function gives a monotone table"),
+            dict(name="m3_elem_argument", kind="complete", timeout=900, props=["C16"], claim="argument i/(SIZE-1): 0 at the first entry, 1 at the last, non-decreasing (256 and 65536 entry tables)"),
+            dict(name="m3_srgb_linear_segments", kind="complete", timeout=900, props=["C16"],
+                 claim="sRGB mapper: below the documented thresholds (0.04045 / 0.0031308) both transfer functions are the documented linear segments "
+                       "(x/12.92, 12.92x), 0 maps to 0, monotone there; the power segments are N1"),
+            dict(name="m3_rows_u16x2_to_u8x2_two_image", kind="bounded", timeout=1500, bound="3 pixels U8x2 -> U8x2 (two images), arbitrary 256-entry table, all contents",
+                 claim="two-image path, 2-component pixels: colour looked up, alpha depth-converted at even and odd pixel positions; spare pixel untouched"),
+            dict(name="m3_map_rejects_mismatch", kind="bounded", timeout=1500,
+                 bound="U8x3 2x1 source against destinations 3x1, 2x2, U8x4 2x1, F32x3 2x1 and 2x1 U8x3; constant tables",
+                 claim="PixelComponentMapper::map rejects different sizes / component counts / unsupported types before writing; accepts equal sizes"),
             dict(name="m3_rows_u8x4_to_u16x4", kind="bounded", timeout=1500, bound="2 pixels U8x4 -> U16x4, arbitrary 256-entry table, all contents",
                  claim="colour components are table look-ups, alpha is into_component (M1), nothing beyond the row written"),
             dict(name="m3_rows_u8x2_inplace_and_u8x3", kind="bounded", timeout=1500, bound="3 pixels U8x2 in place, 2 pixels U8x3 in place, arbitrary table",
